@@ -42,8 +42,9 @@ def wl_roundtrip(ctx, rng, case_no):
     layers = [[] for _ in range(n)]
     t = Text(s, end="")
     spans = []
+    colors = G.related_colorspecs(rng) if rng.random() < 0.35 else None
     for _ in range(rng.randint(0, 6)):
-        rec = G.rand_record(rng, p_link=0.25)
+        rec = G.rand_record(rng, p_link=0.25, colors=colors, p_fg=0.8 if colors else 0.5, p_bg=0.6 if colors else 0.35)
         a = rng.randint(0, n)
         b = rng.randint(a, n)
         if b > a:
@@ -114,6 +115,9 @@ def gen_stream(rng):
     lines = []
     features = set()
     open_style = False
+    colors = G.related_colorspecs(rng) if rng.random() < 0.35 else None
+    if colors:
+        features.add("related_colours")
     for _ in range(rng.randint(1, 8)):
         parts = []
         for _ in range(rng.randint(0, 5)):
@@ -122,7 +126,8 @@ def gen_stream(rng):
             if r < 0.45:
                 parts.append(text)
             elif r < 0.80:
-                rec = G.rand_record(rng, p_link=0.15)
+                rec = G.rand_record(rng, p_link=0.15, colors=colors, p_fg=0.8 if colors else 0.5,
+                                    p_bg=0.6 if colors else 0.35)
                 pre, suf = encode(rec)
                 if rng.random() < 0.1:
                     suf = suf.replace("\x1b[0m", "\x1b[m")   # the short form of reset
